@@ -3,6 +3,7 @@ package rules
 import (
 	"fmt"
 	"go/ast"
+	"go/token"
 	"go/types"
 	"sort"
 	"strings"
@@ -17,7 +18,7 @@ func init() {
 		ID:          "C09",
 		Explanation: "Decided: (id) no type display string (.string) flows into a run-time table key, Map key or keyFor result — tables about types are keyed by identity; (canon) every canonicalising type constructor builds its memo key from all its parameters and from every identity-relevant record key (Go spec type identity); (match) $assertType compares name, pkg and typ of methods; (schema) the method/field records the compiler emits contain every key the prelude reads on them; (mname) every method name emitted as a property or lookup string is the mangled name; (emit) method lists split value/pointer receivers and cover all methods of the instantiated type; (equal) $equal/$interfaceIsEqual cover every object-represented comparable kind; LINK on the helpers involved. NOT decided: embedding/promotion results for arbitrary type graphs, receiver copying at run time.",
 		Assumptions: []string{"typ.id assigned by $newType is unique per run-time type object", "Go spec type identity rules are frozen in the checker as the required key tables"},
-		Rules:       []RuleFunc{ruleC09ID, ruleC09Canon, ruleC09Match, ruleC09Schema, ruleC09Mname, ruleC09Emit, ruleC09Equal, ruleL9, ruleTotal("C09.exh", 2, "translateExpr/SelectorKind", "translateExpr/CallSelectorKind")},
+		Rules:       []RuleFunc{ruleC09ID, ruleC09Canon, ruleC09Match, ruleC09Schema, ruleC09Provenance, ruleC09Mname, ruleC09Emit, ruleC09Equal, ruleL9, ruleTotal("C09.exh", 2, "translateExpr/SelectorKind", "translateExpr/CallSelectorKind")},
 	})
 }
 
@@ -668,3 +669,185 @@ func ruleC09Equal(c *ctx.Ctx, r *core.Reporter) {
 }
 
 var _ = types.Typ
+
+// ---------------------------------------------------------------------------
+// C09.provenance: the values put into method / field records come from the object the record describes
+
+// localAssignments returns the right-hand sides assigned to the named variable inside scope, each with its enclosing conditions.
+type guardedRHS struct {
+	rhs   ast.Expr
+	conds []string
+}
+
+func localAssignments(scope ast.Node, name string) []guardedRHS {
+	var out []guardedRHS
+	ast.Inspect(scope, func(n ast.Node) bool {
+		switch x := n.(type) {
+		case *ast.AssignStmt:
+			for i, l := range x.Lhs {
+				if id, ok := l.(*ast.Ident); ok && id.Name == name && i < len(x.Rhs) {
+					out = append(out, guardedRHS{x.Rhs[i], enclosingConds(scope, x.Pos())})
+				}
+			}
+		case *ast.ValueSpec:
+			for i, id := range x.Names {
+				if id.Name == name && i < len(x.Values) {
+					out = append(out, guardedRHS{x.Values[i], enclosingConds(scope, x.Pos())})
+				}
+			}
+		}
+		return true
+	})
+	return out
+}
+
+// smallestScope returns the innermost block/case/loop body of fd that contains pos.
+func smallestScope(fd *ast.FuncDecl, pos token.Pos) ast.Node {
+	var best ast.Node = fd.Body
+	ast.Inspect(fd.Body, func(n ast.Node) bool {
+		if n == nil {
+			return true
+		}
+		if !(n.Pos() <= pos && pos < n.End()) {
+			return false
+		}
+		switch n.(type) {
+		case *ast.ForStmt, *ast.RangeStmt, *ast.CaseClause:
+			best = n
+		}
+		return true
+	})
+	return best
+}
+
+func ruleC09Provenance(c *ctx.Ctx, r *core.Reporter) {
+	r.Begin("C09.provenance", "F-KEY", "in every method and field record the compiler emits, the identity keys are taken from the object the record describes: name from its Name(), typ from its type, and the package qualifier is empty for exported names and otherwise the Path() of the object's own package", 6)
+	n := 0
+	for _, t := range usableTemplates(c) {
+		if t.Role != tmpl.RoleSink || (t.Func != "funcContext.methodListEntry" && t.Func != "funcContext.initArgs") {
+			continue
+		}
+		toks := t.Tokens
+		if len(toks) == 0 {
+			continue
+		}
+		fd := c.FuncDecl("compiler", t.Func)
+		args := t.FmtArgs()
+		holeArg := func(key string) ast.Expr {
+			for i, tk := range toks {
+				if tk.Kind == tmpl.TIdent && tk.Text == key && identRole(toks, i) == roleKey {
+					for j := i + 2; j < len(toks) && j <= i+3; j++ {
+						if len(toks[j].Holes) == 1 {
+							h := t.Holes[toks[j].Holes[0]]
+							if h.Index >= 0 && h.Index < len(args) {
+								return args[h.Index]
+							}
+						}
+					}
+				}
+			}
+			return nil
+		}
+		isRecord := isPunct(&toks[0], "{") && holeArg("name") != nil
+		scope := smallestScope(fd, t.Pos)
+		// the struct pkgPath is the first argument of the struct init args template `"%s", [%s]`
+		if !isRecord {
+			if t.Text == `"⟨0⟩", [⟨1⟩]` && len(args) == 2 {
+				if id, ok := args[0].(*ast.Ident); ok {
+					n++
+					checkPkgProvenance(c, r, "struct-pkgPath@"+t.Func, fd, smallestScope(fd, t.Pos), id.Name, "", t)
+				}
+			}
+			continue
+		}
+		// subject: receiver of the .Name() call feeding name:
+		nameArg := holeArg("name")
+		subject := ""
+		ast.Inspect(nameArg, func(x ast.Node) bool {
+			if ce, ok := x.(*ast.CallExpr); ok {
+				if sel, ok := ce.Fun.(*ast.SelectorExpr); ok && sel.Sel.Name == "Name" && len(ce.Args) == 0 {
+					subject = exprStr(sel.X)
+				}
+			}
+			return true
+		})
+		kind := "method"
+		if strings.Contains(t.Text, "embedded:") {
+			kind = "field"
+		}
+		id := kind + "-record@" + t.Func
+		if subject == "" {
+			r.Undecided("provenance:"+id+":name", c.Pos(t.Pos), "cannot find <object>.Name() behind the name key: "+exprStr(nameArg))
+			continue
+		}
+		n++
+		r.OK("provenance:"+id+":name", c.Pos(t.Pos), "name is "+exprStr(nameArg))
+		// typ: derives from subject's type (method: initArgs(subject.Type()) or a variable assigned from it; field: typeName(fieldType(..)))
+		if ta := holeArg("typ"); ta != nil && kind == "method" {
+			src := exprStr(ta)
+			ok := strings.Contains(src, subject+".Type()")
+			if !ok {
+				// variable assigned from subject.Type()
+				ast.Inspect(ta, func(x ast.Node) bool {
+					if idn, isId := x.(*ast.Ident); isId {
+						for _, a := range localAssignments(fd.Body, idn.Name) {
+							if strings.Contains(exprStr(a.rhs), subject+".Type()") {
+								ok = true
+							}
+						}
+					}
+					return true
+				})
+			}
+			r.Check(ok, "provenance:"+id+":typ", c.Pos(t.Pos), fmt.Sprintf("typ describes the type of %s: %s", subject, src))
+		}
+		if pa := holeArg("pkg"); pa != nil {
+			if idn, ok := pa.(*ast.Ident); ok {
+				checkPkgProvenance(c, r, id, fd, scope, idn.Name, subject, t)
+			} else {
+				r.Check(strings.Contains(exprStr(pa), subject+".Pkg().Path()"), "provenance:"+id+":pkg", c.Pos(t.Pos), "pkg is "+exprStr(pa))
+			}
+		}
+	}
+	r.Count("record templates examined for provenance", n)
+}
+
+// checkPkgProvenance: variable v holds "" or <subject>.Pkg().Path(), the latter only under !<subject>.Exported().
+func checkPkgProvenance(c *ctx.Ctx, r *core.Reporter, id string, fd *ast.FuncDecl, scope ast.Node, v, subject string, t *tmpl.Template) {
+	as := localAssignments(scope, v)
+	if len(as) == 0 {
+		as = localAssignments(fd.Body, v)
+	}
+	okAll, sawPath := len(as) > 0, false
+	detail := ""
+	for _, a := range as {
+		src := exprStr(a.rhs)
+		switch {
+		case src == `""`:
+		case strings.HasSuffix(src, ".Pkg().Path()"):
+			owner := strings.TrimSuffix(src, ".Pkg().Path()")
+			if subject != "" && owner != subject {
+				okAll = false
+				detail = fmt.Sprintf("%s is set from %s, not from the described object %s", v, src, subject)
+			}
+			guarded := false
+			for _, cd := range a.conds {
+				if squash(cd) == "!"+owner+".Exported()" {
+					guarded = true
+				}
+			}
+			if !guarded {
+				okAll = false
+				detail = fmt.Sprintf("%s = %s is not guarded by !%s.Exported()", v, src, owner)
+			}
+			sawPath = true
+		default:
+			okAll = false
+			detail = fmt.Sprintf("%s is set from %s: the qualifier of an unexported name must be the path of the package that declares it (Go spec: unexported names from different packages are always different), not of any other package", v, src)
+		}
+	}
+	if okAll && !sawPath {
+		okAll, detail = false, v+" is never set to a package path"
+	}
+	r.Check(okAll, "provenance:"+id+":pkg", c.Pos(t.Pos), ternary(okAll, fmt.Sprintf("%s is \"\" for exported names and the declaring package's Path() otherwise", v), detail))
+}
